@@ -623,14 +623,14 @@ fn main() {
         let mut l = Local::new();
         let cache = KeyCache::new(4);
         let mut pool = Vec::new();
-        for _ in 0..40 {
+        for _ in 0..24 {
             let mut d = gen_desc(&mut rng);
             d.len = d.len.min(96);
             if let Some((_, enc)) = check_message(&rep, &mut l, &d, &keys, &cache, true) {
                 pool.push(enc);
             }
         }
-        for _ in 0..120 {
+        for _ in 0..70 {
             let (b, how) = gen_bytes(&mut rng, &pool);
             check_bytes(&rep, &mut l, &b, &cache, how, true);
         }
